@@ -9,7 +9,11 @@ for l in open('/verif/seeded_candidates/confirm.log'):
     m=re.match(r'(C\d+_\d): (.*)',l)
     if m: confirm[m.group(1)]=m.group(2).strip()
 def unmangle(s):
-    return re.sub(r'x([0-9a-f]{2})', lambda m: chr(int(m.group(1),16)), s)
+    s=re.sub(r'x([0-9a-f]{2})', lambda m: chr(int(m.group(1),16)), s)
+    s=re.sub(r'^\(P(\w+?)_(\w+)\)_', r'(*\1.\2).', s)
+    s=re.sub(r'^\((\w+?)_(\w+)\)_', r'(\1.\2).', s)
+    s=re.sub(r'^(undecided_)?([a-z]+)_([A-Za-z]\w*?)(:|$)', r'\1\2.\3\4', s)
+    return s
 pkgdir={'testing':'tests','builder':'pkg/builder','util':'pkg/util','util_test':'pkg/util','logger':'pkg/logger','option':'pkg/option',
  'parser':'pkg/parser','parser_test':'pkg/parser','generator':'pkg/generator','generator_test':'pkg/generator','runner':'pkg/runner',
  'runner_test':'pkg/runner','config':'pkg/config','model_test':'pkg/generator/model'}
